@@ -258,7 +258,8 @@ func c01Families(thorough bool) []*engine.IFamily {
 						for _, class := range classes {
 							for _, av := range []int{0, 1, 2} { // ackRequest absent, true, explicitly false
 								ack, ackFalse := av == 1, av == 2
-								for _, dest := range []string{"server", "client", "nofeature", "noentity"} {
+								// ("-nodev": the device part of the destination is omitted, which means the receiving device)
+								for _, dest := range []string{"server", "client", "nofeature", "noentity", "server-nodev", "nofeature-nodev"} {
 									cs := c01Case{class: class, ack: ack, ackFalse: ackFalse, dest: dest, fn: fn, peer: peer}
 									// source: requests come from the peer's client feature, data from its server feature
 									srcNum := uint(2*ti + 1)
@@ -276,7 +277,13 @@ func c01Families(thorough bool) []*engine.IFamily {
 										dst = world.FAddr(world.LocalAddr, []uint{1}, 250)
 									case "noentity":
 										dst = world.FAddr(world.LocalAddr, []uint{9}, 1)
+									case "server-nodev":
+										dst = world.FAddr("", entOf(c.srv[t.ft].Address()), uint(*c.srv[t.ft].Address().Feature))
+									case "nofeature-nodev":
+										dst = world.FAddr("", []uint{1}, 250)
 									}
+									dest = strings.TrimSuffix(dest, "-nodev")
+									cs.dest = dest
 									cmd := model.CmdType{}
 									var ref *model.MsgCounterType
 									switch class {
